@@ -1,7 +1,7 @@
 (* Proofs about the M3 reporter's size accounting and batching loop
    (Model/M3Batch.v) on top of the C16 results about the encoders. *)
 From Coq Require Import ZArith List Bool Lia.
-From Tally Require Import Base.Obs Model.Varint Model.Thrift Model.M3Batch
+From Tally Require Import Base.ObsCore Model.Varint Model.Thrift Model.M3Batch
   Proof.VarintP Proof.ThriftP Proof.ThriftCompactP Proof.ThriftBinaryP Proof.ThriftC16P.
 Import ListNotations.
 Open Scope Z_scope.
